@@ -60,3 +60,23 @@ Example C13_deep_link_peeled :
              map rlinks (rchildren r') = [[("b.x", [("b", "x")])]] /\
              map rparams (rchildren r') = [["b.x"]].
 Proof. eexists. repeat split; vm_compute; reflexivity. Qed.
+
+(* the import keeps links as a mapping keyed by the source: entries that share a source are merged, nothing is lost
+   (every target listed for a source is still listed for it, in order), the merged list has distinct sources, and a
+   list whose sources are already distinct -- every internal Routine -- is left exactly as it is *)
+Theorem C13_merged_links_keep_every_target : forall (T : Type) (li : list (string * list T)) s,
+  targets_of s (merge_links li) = targets_of s li.
+Proof. exact @merge_links_targets. Qed.
+Print Assumptions C13_merged_links_keep_every_target.
+
+Theorem C13_merged_links_have_distinct_sources : forall (T : Type) (li : list (string * list T)), NoDup (map fst (merge_links li)).
+Proof. exact @merge_links_nodup. Qed.
+Print Assumptions C13_merged_links_have_distinct_sources.
+
+Theorem C13_distinct_links_unchanged : forall (T : Type) (li : list (string * list T)), NoDup (map fst li) -> merge_links li = li.
+Proof. exact @merge_links_distinct. Qed.
+Print Assumptions C13_distinct_links_unchanged.
+
+Example C13_merge_example :
+  merge_links [("N", ["a.x"]); ("M", ["c.z"]); ("N", ["b.y"])] = [("N", ["a.x"; "b.y"]); ("M", ["c.z"])].
+Proof. vm_compute. reflexivity. Qed.
